@@ -41,6 +41,8 @@ FOREIGN = [
 CALLERS = [None, ["git", "log", "-p"], ["git", "show"], ["git", "diff"],
            # revisions that contain a colon but name no file (`REV:path` would make the whole input a file's content)
            ["git", "show", "--oneline", ":/fix typo"], ["git", "show", "-s", "HEAD@{2024-01-01 10:00:00}"],
+           ["git", "show", "--oneline", "HEAD^{/fix: typo}"], ["git", "show", "--format=%s", "main@{1}^{/a:b}"],
+           ["git", "show", "--oneline", ":/fix: typo"],
            # ... and path arguments after `--` with a colon (pathspec magic)
            ["git", "show", "--oneline", "HEAD", "--", ".", ":!package-lock.json"]]
 # callers that enable blame / grep parsing: only lines outside the documented shapes
@@ -187,6 +189,17 @@ class Foreign(Problem):
             # unchanged empty line written without its blank - and is not judged)
             check_passthrough(line, out, self.ocfg.get("maxlen", 3000), after_section=True)
         return ()
+
+    def can_end(self, ps):
+        # after a foreign line the input may end: "interleaved correctly with rendered sections" - whatever delta
+        # renders of the lines before it has been written by then, nothing of it may come after the text
+        return ps[0] in (4, 5) and ps[1] >= 1
+
+    def eof(self, model, out, ps):
+        if out.strip(b"\n") != b"":
+            raise ViolationError("rendered-after-text", "after the last line, a passed-through text line, was written, "
+                                 "the end of input still produced %r: lines of the section before the text come out "
+                                 "after it" % out[:200], observed=out)
 
     def model_key(self, model):
         return ()
